@@ -22,6 +22,9 @@
 #ifndef NLAY
 #define NLAY 1         /* layers per frame */
 #endif
+#ifndef UBITS
+#define UBITS 0x2A     /* the 7 unused bits of the second metadata byte */
+#endif
 #ifndef NUNK
 #define NUNK 0         /* unknown-container entries per animation */
 #endif
@@ -51,7 +54,9 @@ static ArtShape build_art(uint8_t* f) {
   for (unsigned a = 0; a < NANIM; a++) {
     p += 32; vf_st32(f + p, NFR); p += 4;
     for (unsigned k = 0; k < NFR; k++) {
-      f[p] = (uint8_t)((NLAY) | (((FFLAGS) & 1) << 7)); f[p + 1] = (uint8_t)((f[p + 1] & 0x7F) | ((((FFLAGS) >> 1) & 1) << 7));
+      // both metadata bytes are fully concrete: a symbolic low part would leave the flag bit "unknown" to the symbolic executor, which
+      // then explores the (infeasible) other frame layout with symbolic structure
+      f[p] = (uint8_t)((NLAY) | (((FFLAGS) & 1) << 7)); f[p + 1] = (uint8_t)(((UBITS) & 0x7F) | ((((FFLAGS) >> 1) & 1) << 7));
       p += FRAME_LEN;
     }
     vf_st32(f + p, NUNK); p += 4 + 16 * (NUNK);
